@@ -313,11 +313,17 @@ static void tok_digest_dnsrec(app_tok_t *t, const ares_dns_record_t *rec)
 
 /* ------------------------------------------------------------------ callbacks */
 static void app_set_servers_now(int arg, int quiescent);
+static int app_slow_cb; /* profile hostile-slowcb: completion callbacks take their time (the clock moves while they run) */
 static void app_reentrant(app_tok_t *t)
 {
   int k, n;
   if (t->cb_status == ARES_EDESTRUCTION || app_in_destroy || sim_destroyed) {
     return; /* documented: channel must not be used */
+  }
+  if (app_slow_cb && t->action != RA_NONE && vh_chance(&app_rng, 2, 3)) {
+    /* the application works on the result for a while before it asks its follow-up questions */
+    sim_now_us += 300000 + (int64_t)vh_below(&app_rng, 2200000);
+    sim_note("callback_took_its_time");
   }
   switch (t->action) {
     case RA_START1:
